@@ -406,6 +406,12 @@ def accept(u: U):
         u.check("C16.accept.no_host_no_flag", len(adds) == 0, "no response host: no host-only flag")
     if not stores:
         u.cover("C16.accept.rejected")
+        if not old:
+            # nothing was stored under this key before, so "not stored" means the Set-Cookie was REFUSED (with a
+            # stored cookie it may also mean "identical cookie already there", where a deadline update is legitimate)
+            u.check("C16.accept.rejected_touches_no_deadline", not any(e[0] == "expire" for e in ev),
+                    "a Set-Cookie that is refused (foreign domain, IP host) leaves the deadline tables alone: one site "
+                    "can neither delete nor prolong another site's cookie")
         return
     u.cover("C16.accept.stored")
     _, key, nm, stored = stores[0]
